@@ -29,6 +29,14 @@ def path_alphabet() -> Alphabet:
 
 
 # ------------------------------------------------------------------ anchors by role
+class FilteredAlternation(AnalysisError):
+    """The comprehension that feeds re.compile drops some globs."""
+    def __init__(self, conds, node):
+        super().__init__(f"alternation filters the paths ({conds})")
+        self.conds = conds
+        self.node = node
+
+
 class Matcher:
     """How AnnotationsItem turns its globs into the compiled pattern, extracted from the source:
     the expression passed to re.compile is kept as a template over `SEP.join(translate(p) for p in paths)`
@@ -95,7 +103,7 @@ class Matcher:
             if it not in ("self.paths", "sorted(self.paths)", "list(self.paths)"):
                 raise AnalysisError(f"alternation ranges over {it}, not over self.paths")
             if g.ifs:
-                raise AnalysisError("alternation filters the paths")
+                raise FilteredAlternation([ast.unparse(c) for c in g.ifs], e)
             elt = gen.elt
             if not (isinstance(elt, ast.Call) and isinstance(elt.func, ast.Name) and len(elt.args) == 1
                     and ast.unparse(elt.args[0]) == ast.unparse(g.target)):
@@ -485,6 +493,14 @@ def run(ck: Check, repo: Repo) -> None:
     ck.assumptions.append("paths range over all strings without CR/LF over the minterm alphabet"
                           " {a, b, '.', '/', '*', '\\\\', other}")
     ck.trust("CPython ast", "re._parser", "sa/transducer.py", "sa/relang.py")
-    tr, qual, fn = rule_model(ck, repo)
+    try:
+        tr, qual, fn = rule_model(ck, repo)
+    except FilteredAlternation as err:
+        r = next((x for x in ck.rules if x.rid == "R1"), None) or ck.rule("R1", "compiled pattern = anchored alternation of every translated glob")
+        r.violation(f"{GL}.AnnotationsItem.__attrs_post_init__", f"globs are filtered out of the alternation ({'; '.join(err.conds)})",
+                    "an annotation applies exactly when ONE OF ITS GLOBS matches: a glob that is dropped before compilation can never"
+                    " match, and when every glob is dropped the pattern is empty and (with match()) accepts EVERY path",
+                    repo.loc(err.node))
+        return
     rule_sandwich(ck, repo, tr, qual, fn)
     rule_attribution(ck, repo)
